@@ -42,7 +42,14 @@ def runPts (d iter tol n : Nat) (ws : List Int) (coords : List Nat) : String :=
   let bb := bboxF64 d pts64
   showTree n (runTree (withinTol (f64OfBits tol)) ⟨d, fuel⟩ iter pts ws bb.1 bb.2)
 
-def handle (toks : List String) : String :=
+/-- `rcbvar …`: the same data through another weight type / calling context / zero sign; the model
+has one input type and no context and replays zero signs exactly: it predicts the plain call. -/
+def dropVariant : List String → List String
+  | "rcbvar" :: d :: iter :: tol :: threads :: _variant :: rest =>
+    "rcb" :: d :: iter :: tol :: threads :: rest
+  | t => t
+
+def handleCore (toks : List String) : String :=
   match toks with
   | "rcb" :: d :: iter :: tol :: _threads :: n :: rest =>
     if largeN n then skipLarge else
@@ -92,5 +99,7 @@ def handle (toks : List String) : String :=
       | .oob => "panic index out of bounds"
       | .fuel => "abort fuel"
   | _ => "bad-op"
+
+def handle (toks : List String) : String := handleCore (dropVariant toks)
 
 end Coupe.Driver.C04
